@@ -81,6 +81,10 @@ type Exec struct {
 	globalPinned map[*ssa.Global]bool
 	stableCache  []*ssa.Global
 	roInit       map[string]Term // reference (constant term) of a read-only package variable -> its initialiser
+	frameEvals, minRegionsAtFrame int
+	ifaceOrigin  map[string]ifaceOrg // interface term (as named by its MakeInterface) -> dynamic type and boxed value
+	dirty        map[string]bool // heap regions in which an object that existed at entry may have been written
+	dirtyAll     bool
 	oldWrites    int  // stores whose target is not syntactically an object allocated by the function itself
 	allocBound   *Clause // `opt alloc=<expr>`: byte bound for data-dependent allocations
 	topContract  *FnContract
@@ -99,6 +103,11 @@ func (u *Unsupported) Error() string { return "unsupported: " + u.Msg }
 
 func unsupported(format string, args ...interface{}) error {
 	return &Unsupported{Msg: fmt.Sprintf(format, args...)}
+}
+
+type ifaceOrg struct {
+	Typ types.Type
+	Val Val
 }
 
 func NewExec(p *Program, db *ContractDB, fn *ssa.Function) *Exec {
